@@ -99,19 +99,17 @@ structure Cfg where
   freshPlain : Bool := true
   /-- oracle: completion log of the `i`-th sub-search of thread `t` (scores, failures, order) -/
   trials : Nat → Nat → Log
+  /-- which Reusable object thread `t` talks to: constantly 0 for one shared `Reusable*Optimizer`,
+      the identity for `AutoOptimizer(cache=True)` (one `ReusableHyperOptimizer` per thread id);
+      the theorems hold for every assignment -/
+  objOf : Nat → Nat := fun _ => 0
 
 structure Sys where
-  /-- the Reusable objects: index 0 in mode `reusable`, the thread id in mode `autoCached` -/
+  /-- the Reusable objects, indexed by `Cfg.objOf` -/
   objs : Nat → RState
   /-- `AutoOptimizer(cache=False)._hyperoptimizers_by_thread[tid]` (fresh if absent) -/
   plain : Nat → HState
   threads : Nat → Thread
-
-/-- which Reusable object thread `t` talks to -/
-def Cfg.objOf (cfg : Cfg) (t : Nat) : Nat :=
-  match cfg.mode with
-  | .reusable => 0
-  | _ => t
 
 /-- a trial function builds its tree over the inputs it was given -/
 def stamp (q : Query) (log : Log) : Log :=
